@@ -361,7 +361,7 @@ impl Prop for C20 {
     fn plan(tier: Tier) -> Plan {
         Plan {
             shards: tier.pick(4, 16),
-            cases_per_shard: tier.pick(1_500, 8_000),
+            cases_per_shard: tier.pick(1_500, 20_000),
             watchdog: StdDuration::from_secs(tier.pick(300, 3600)),
         }
     }
